@@ -15,3 +15,10 @@ package hash
 
 //@ func (AlwaysRun).Hash
 //@ ensures result0 == "DIFFERENT" && result1 == nil
+
+// Concurrent.Hash computes the digest spec function DG over the current file state (C04 is the
+// property that relates this contract to the body; until then the body is trusted).
+//@ func (Concurrent).Hash
+//@ trusted worker pool with goroutines and channels: see C04/C18
+//@ ensures result1 == nil ==> result0 == DG(fsid, files)
+//@ ensures ioOK ==> result1 == nil
